@@ -13,6 +13,7 @@ Definition live_tags : list (str * str) := [(W_P, (s "w:p")); (W_T, (s "w:t")); 
 
 Definition live_remove_tags_html : list str := [(s "applet"); (s "embed"); (s "iframe"); (s "noscript"); (s "object"); (s "script"); (s "style")].
 Definition live_remove_tags_epub : list str := [(s "applet"); (s "embed"); (s "iframe"); (s "noscript"); (s "object"); (s "script"); (s "style")].
+Definition live_void_remove_tags_epub : list str := [(s "embed")].
 Definition live_ods_skip_tags : list str := [(s "office:annotation")].
 Definition live_odt_skip_tags : list str := [(s "office:annotation"); (s "text:note")].
 Definition live_odp_skip_tags : list str := [(s "office:annotation")].
